@@ -54,6 +54,13 @@ CHECKS.update({
    note=VFS_NOTE + " Process death only (no power-loss model); single faults; Qt's internal copy+remove fallback of QFile::rename accepted."),
 })
 
+CHECKS.update({
+ "C11": dict(engine="procx", level=FE, design="§6, §7 C11",
+   technique="exhaustive enumeration of a finite product of child processes (configuration front-end x sink kind x thread x backlog x payload size around the stream buffer), each killed by qFatal's abort; file contents compared with the logged sequence",
+   text="Every combination of configuration front-end, file sink kind, logging thread, number of preceding messages and payload size around QFile's 16 KiB buffer is run as a real child process that ends in qFatal; the child must die by SIGABRT and the log files must hold every message and the fatal one, in order.",
+   note="Trusted: the crash point is Qt's abort() right after the handler returns; synchronous logger only; real QFile buffering of the installed Qt."),
+})
+
 PENDING = {}
 
 def main():
